@@ -110,7 +110,7 @@ def direct_cases():
 
 
 def main():
-    chk = Check('C04')
+    chk = Check('C04', extra_modules=['Bardolph.Proofs.Loops'])
     chk.lean_phase(sections=set())
     rng = chk.rng
     stats = {}
